@@ -421,6 +421,22 @@ def main(argv):
             cases.append((y, L(x, z), "F random doubles, scalar op list"))
         else:
             cases.append((L(x, z), L(y, x), "F random doubles, list op list"))
+    # long lists: the element-by-element law at lengths where an implementation might switch strategy (chunked /
+    # vectorised loops of 4, 8, 16, 32, 64; pre-sized buffers), with the one failing or foreign element in the
+    # last chunk, and lengths that differ by one (round 4: size boundaries were absent from every generator)
+    for n in ([15, 16, 17, 31, 33, 64, 65, 129] if not thorough else [15, 16, 17, 31, 32, 33, 63, 64, 65, 127, 128, 129, 255, 256, 257, 1000]):
+        fam = SC[:16]
+        l = V("list", [rng.choice(fam) for _ in range(n)])
+        m = V("list", [rng.choice(fam) for _ in range(n)])
+        s_ = rng.choice(fam)
+        cases.append((l, s_, "G long list op scalar"))
+        cases.append((s_, l, "G scalar op long list"))
+        cases.append((l, m, "G long list op long list"))
+        odd = list(m.p)
+        odd[n - 1 - rng.below(3)] = rng.choice(E)
+        cases.append((l, V("list", odd), "G long lists, one foreign element near the end"))
+        cases.append((l, V("list", list(m.p) + [rng.choice(fam)]), "G long lists, lengths differ by one"))
+        cases.append((V("list", list(l.p)[:-1]), m, "G long lists, lengths differ by one"))
     # de-duplicate, keep order
     seen = set()
     uniq = []
